@@ -6,7 +6,10 @@ use crate::universe::{self, Bounds};
 use std::collections::BTreeMap;
 
 pub mod c01;
+pub mod c05;
 pub mod c08;
+pub mod c09;
+pub mod c10;
 pub mod c11;
 pub mod c13;
 pub mod c14;
